@@ -1,7 +1,8 @@
 """C19 Tree navigation API agrees with a set-based model of the tree."""
 from .. import model, sweep
 from ..runner import Result, scratch
-from ..bridge import T, build, quiet, build_via_export, build_via_tiger, perturb, extract
+from ..bridge import T, build, quiet, build_via_export, build_via_tiger, perturb, extract, raw_leaves, monitor
+from .c11 import ref_delete
 
 ID = 'C19'
 LEVEL = 'exploration'
@@ -17,7 +18,7 @@ def plan(tier, seed):
         'chunks': sweep.shape_chunks(specs, per_chunk=60),
         'rule': 'every hierarchy over n tokens (all discontinuous shapes) with up to u unary '
                 'insertions at every position, each built with child lists in model order, '
-                'reversed and rotated; every node and every ordered pair of nodes queried. '
+                'reversed and rotated, and as delivered by the export and TIGER-XML readers; every node and every ordered pair of nodes queried, on the fresh tree, after re-attaching the last / first token by hand, and after deleting the last / first token with trees.delete_terminal (expected tree from the reference editor). '
                 'non-trivial = distinct (shape, child order) with >= 2 constituents',
         'bound': ', '.join('n=%d:u<=%d' % s for s in specs),
         'exhaustive': True,
@@ -125,6 +126,21 @@ def check_tree(mt_json, order):
             if not out and perturb(t, mode):
                 mt2 = extract(t)
                 compare_live(t, mt2, case, out, 'after re-attaching the %s token in place' % mode)
+        # ... and after the API's own in-place edit: a token deleted with trees.delete_terminal
+        for which in ('last', 'first'):
+            cur = extract(t) if not out else None
+            if cur is None or cur.n() < 2:
+                break
+            pos = cur.n() if which == 'last' else 1
+            T.delete_terminal(t, [l for l in raw_leaves(t) if l.data['num'] == pos][0])
+            exp = ref_delete(cur, [pos])
+            probs = monitor(t, exp.n())
+            if probs:
+                out.append({'kind': 'ill-formed-after-delete', 'where': 'trees.delete_terminal', 'case': case,
+                            'detail': 'deleting the %s token of %s: %s' % (which, model.mt_str(cur.root), '; '.join(probs)),
+                            'what': 'delete_terminal leaves a tree the navigation functions cannot work on'})
+                break
+            compare_live(t, exp, case, out, 'after deleting the %s token with trees.delete_terminal' % which)
     except Exception as e:  # library crashed on a well-formed tree
         out.append({'kind': 'exception', 'where': 'trees.*', 'case': case,
                     'detail': '%s: %s on %s' % (type(e).__name__, e, model.mt_str(mt.root)),
